@@ -1013,8 +1013,11 @@ theorem request_after_stable (cfg : Cfg) (m t : Str) (hs : List (Str × Str)) (b
     obtain ⟨l0, cc, fr, ua, hs', _, _, hcc, _, _, _, rfl⟩ := prepare_inv hp
     exact bodyToChunks_after_stable hb hcc
 
+theorem recordPos_stable {b : Body} (hb : Stable b) : recordPos b = .none := by
+  cases b <;> simp_all [recordPos, Stable]
+
 theorem setFilePosition_stable {b : Body} (hb : Stable b) : setFilePosition b .none = .ok (b, .none) := by
-  cases b <;> simp_all [setFilePosition, Stable]
+  simp [setFilePosition, recordPos_stable hb]
 
 /-- same file object, possibly at another position -/
 def SameFile (f0 f : FileB) : Prop :=
@@ -1035,18 +1038,19 @@ theorem sameFile_eq {f0 f : FileB} (h : SameFile f0 f) : { f with pos := f0.pos 
   obtain ⟨h1, h2, h3, h4⟩ := h
   cases f; cases f0; simp_all
 
-/-- the call did not fail, or it failed with the error of sending some request (never because of
-re-positioning the body) -/
-def ResultOk (cfg : Cfg) (target : Str) (chunked : Bool) (r : HResult) : Prop :=
-  r.result = .ok () ∨
+/-- the call did not fail, or — only when `bad` — it failed with `UnrewindableBodyError`, or it failed
+with the error of sending some request -/
+def ResultOk (cfg : Cfg) (target : Str) (chunked : Bool) (bad : Prop) (r : HResult) : Prop :=
+  r.result = .ok () ∨ (bad ∧ r.result = .error .unrewindableBody) ∨
   ∃ e m hs b, r.result = .error e ∧ (request cfg m target hs b chunked).sent.err = some e
 
-theorem nextPos_none (lvl : Level) : nextPos lvl .none = .none := by cases lvl <;> rfl
+theorem nextPos_self (lvl : Level) (p : BodyPos) : nextPos lvl p p = p := by cases lvl <;> rfl
 
-theorem cons_all303 {cfg : Cfg} {target : Str} {chunked : Bool} (a : Attempt) (h : HResult) (ha : a.after303 = true)
-    (H : (∀ x ∈ h.attempts, x.after303 = true) ∧ ResultOk cfg target chunked h) :
+theorem cons_all303 {cfg : Cfg} {target : Str} {chunked : Bool} {bad : Prop} (a : Attempt) (h : HResult)
+    (ha : a.after303 = true)
+    (H : (∀ x ∈ h.attempts, x.after303 = true) ∧ ResultOk cfg target chunked bad h) :
     (∀ x ∈ (⟨a :: h.attempts, h.result⟩ : HResult).attempts, x.after303 = true) ∧
-      ResultOk cfg target chunked ⟨a :: h.attempts, h.result⟩ := by
+      ResultOk cfg target chunked bad ⟨a :: h.attempts, h.result⟩ := by
   refine ⟨?_, H.2⟩
   intro x hx
   simp only [List.mem_cons] at hx
@@ -1054,74 +1058,130 @@ theorem cons_all303 {cfg : Cfg} {target : Str} {chunked : Bool} (a : Attempt) (h
   · exact ha
   · exact H.1 x hx
 
-theorem sendHistory_after303 (lvl : Level) (cfg : Cfg) (target : Str) (chunked : Bool) (hist : List Outcome) :
+/-- once a 303 was followed (body and recorded position dropped) every further request is marked
+`after303` and nothing can fail but the sending of a request -/
+theorem sendHistory_after303 (lvl : Level) (cfg : Cfg) (target : Str) (chunked : Bool) (bad : Prop)
+    (hist : List Outcome) :
     ∀ st : HState, st.after303 = true → st.body = .none → st.pos = .none →
+      (st.mgr = none ∨ st.mgr = some .none) →
       (∀ a ∈ (sendHistory lvl cfg target chunked hist st).attempts, a.after303 = true) ∧
-      ResultOk cfg target chunked (sendHistory lvl cfg target chunked hist st) := by
+      ResultOk cfg target chunked bad (sendHistory lvl cfg target chunked hist st) := by
   induction hist with
-  | nil => intro st _ _ _; simp [sendHistory, ResultOk]
+  | nil => intro st _ _ _ _; simp [sendHistory, ResultOk]
   | cons o rest ih =>
-    intro st h3 hb hp
+    intro st h3 hb hp hm
     have hsf : setFilePosition st.body st.pos = .ok (.none, .none) := by rw [hb, hp]; rfl
+    have hmp : managerPos st = .none := by
+      unfold managerPos
+      rcases hm with hm | hm <;> simp [hm, hp, hb, recordPos]
     have haft : (request cfg st.meth target st.headers .none chunked).after = .none :=
       request_after_stable _ _ _ _ _ _ trivial
-    simp only [sendHistory, hsf]
+    simp only [sendHistory, hsf, hmp]
     by_cases hc : o = .connErr
     · simp only [hc, if_true]
-      exact ih _ h3 rfl rfl
+      exact ih _ h3 rfl rfl (Or.inr rfl)
     · simp only [hc, if_false]
       cases herr : (request cfg st.meth target st.headers .none chunked).sent.err with
       | some e =>
         simp only
-        refine ⟨by simp [h3], Or.inr ⟨e, _, _, _, rfl, herr⟩⟩
+        refine ⟨by simp [h3], Or.inr (Or.inr ⟨e, _, _, _, rfl, herr⟩)⟩
       | none =>
         simp only
         cases o with
         | connErr => exact absurd rfl hc
         | ok => simp [h3, ResultOk]
-        | readErr => exact cons_all303 _ _ h3 (ih _ h3 haft rfl)
-        | retryStatus => exact cons_all303 _ _ h3 (ih _ h3 haft rfl)
-        | redirectKeep => exact cons_all303 _ _ h3 (ih _ h3 haft (nextPos_none lvl))
-        | redirect303 => exact cons_all303 _ _ h3 (ih _ rfl rfl (nextPos_none lvl))
+        | readErr => exact cons_all303 _ _ h3 (ih _ h3 haft rfl (Or.inr rfl))
+        | retryStatus => exact cons_all303 _ _ h3 (ih _ h3 haft rfl (Or.inr rfl))
+        | redirectKeep => exact cons_all303 _ _ h3 (ih _ h3 haft (nextPos_self lvl _) (Or.inl rfl))
+        | redirect303 => exact cons_all303 _ _ h3 (ih _ rfl rfl rfl (Or.inl rfl))
+
+/-- bodies that `urlopen` can always re-send: unchanged by iteration, or a file with working `seek()`
+and `tell()` -/
+def Good (b0 : Body) : Prop :=
+  Stable b0 ∨ ∃ f, b0 = .file f ∧ f.seek = .ok ∧ f.tell = .ok
 
 /-- the invariant of `urlopen`'s recursion before any 303: either the body is stable and no position is
-recorded, or (pool level) the body is the initial seekable + tellable file, at any position, and the
-recorded position — if one is recorded already — is the initial one -/
-def Inv (lvl : Level) (b0 body : Body) (pos : BodyPos) : Prop :=
-  (Stable b0 ∧ body = b0 ∧ pos = .none) ∨
-  (lvl = .pool ∧ ∃ f0 f, b0 = .file f0 ∧ f0.seek = .ok ∧ f0.tell = .ok ∧ body = .file f ∧ SameFile f0 f ∧
-     ((pos = .none ∧ f.pos = f0.pos) ∨ pos = .int f0.pos))
+recorded, or the body is the initial file (with a `tell` attribute), at any position, and the recorded
+position — if one is recorded already — is the one `set_file_position` records for the initial file;
+the position `PoolManager.urlopen` recorded itself, if any, is the same -/
+def Inv (b0 body : Body) (pos : BodyPos) (mgr : Option BodyPos) : Prop :=
+  (Stable b0 ∧ body = b0 ∧ pos = .none ∧ (mgr = none ∨ mgr = some .none)) ∨
+  (∃ f0 f, b0 = .file f0 ∧ f0.tell ≠ .absent ∧ body = .file f ∧ SameFile f0 f ∧
+     ((pos = .none ∧ f.pos = f0.pos ∧ mgr = none) ∨
+      (pos = recordPos b0 ∧ (mgr = none ∨ mgr = some (recordPos b0)))))
 
-theorem inv_step (cfg : Cfg) {lvl : Level} {b0 body : Body} {pos : BodyPos} (h : Inv lvl b0 body pos) :
-    ∃ pos1, setFilePosition body pos = .ok (b0, pos1) ∧ Inv lvl b0 b0 pos1 ∧
-      (∀ m t hs ch, Inv lvl b0 (request cfg m t hs b0 ch).after pos1) ∧
-      (∀ m t hs ch, Inv lvl b0 (request cfg m t hs b0 ch).after (nextPos lvl pos1)) ∧
-      (Stable b0 → pos1 = .none) := by
-  rcases h with ⟨hs, rfl, rfl⟩ | ⟨rfl, f0, f, rfl, hsk, htl, rfl, hsame, hpos⟩
-  · refine ⟨.none, setFilePosition_stable hs, Or.inl ⟨hs, rfl, rfl⟩, ?_, ?_, fun _ => rfl⟩
-    · intro m t h ch; exact Or.inl ⟨hs, request_after_stable _ _ _ _ _ _ hs, rfl⟩
-    · intro m t h ch; exact Or.inl ⟨hs, request_after_stable _ _ _ _ _ _ hs, nextPos_none _⟩
-  · have hinv0 : Inv .pool (.file f0) (.file f0) (.int f0.pos) :=
-      Or.inr ⟨rfl, f0, f0, rfl, hsk, htl, rfl, ⟨rfl, rfl, rfl, rfl⟩, Or.inr rfl⟩
-    have hafter : ∀ m t hs ch, Inv .pool (.file f0) (request cfg m t hs (.file f0) ch).after (.int f0.pos) := by
-      intro m t hs ch
+theorem inv_step (cfg : Cfg) {b0 body : Body} {pos : BodyPos} {mgr : Option BodyPos}
+    (h : Inv b0 body pos mgr) (m : Str) (hs : List (Str × Str)) (a3 : Bool) :
+    managerPos ⟨m, hs, body, pos, a3, mgr⟩ = recordPos b0 ∧
+    ((setFilePosition body pos = .error .unrewindableBody ∧ ¬ Good b0) ∨
+     (setFilePosition body pos = .ok (b0, recordPos b0) ∧
+      Inv b0 b0 (recordPos b0) (some (recordPos b0)) ∧
+      (∀ m t hs ch, Inv b0 (request cfg m t hs b0 ch).after (recordPos b0) (some (recordPos b0))) ∧
+      (∀ m t hs ch, Inv b0 (request cfg m t hs b0 ch).after (recordPos b0) none) ∧
+      (Stable b0 → recordPos b0 = .none))) := by
+  rcases h with ⟨hst, rfl, rfl, hm⟩ | ⟨f0, f, rfl, htl, rfl, hsame, hpos⟩
+  · have hr := recordPos_stable hst
+    refine ⟨?_, Or.inr ⟨by rw [hr]; exact setFilePosition_stable hst, ?_, ?_, ?_, fun _ => hr⟩⟩
+    · unfold managerPos
+      rcases hm with hm | hm <;> simp [hm, hr]
+    · rw [hr]; exact Or.inl ⟨hst, rfl, rfl, Or.inr rfl⟩
+    · intro m t h ch; rw [hr]; exact Or.inl ⟨hst, request_after_stable _ _ _ _ _ _ hst, rfl, Or.inr rfl⟩
+    · intro m t h ch; rw [hr]; exact Or.inl ⟨hst, request_after_stable _ _ _ _ _ _ hst, rfl, Or.inl rfl⟩
+  · have hfe := sameFile_eq hsame
+    have hne : recordPos (.file f0) ≠ .none := by
+      simp only [recordPos]
+      cases h : f0.tell <;> simp_all
+    have hinv0 : Inv (.file f0) (.file f0) (recordPos (.file f0)) (some (recordPos (.file f0))) :=
+      Or.inr ⟨f0, f0, rfl, htl, rfl, ⟨rfl, rfl, rfl, rfl⟩, Or.inr ⟨rfl, Or.inr rfl⟩⟩
+    have hafter : ∀ (mg : Option BodyPos), (mg = none ∨ mg = some (recordPos (.file f0))) → ∀ m t hs ch,
+        Inv (.file f0) (request cfg m t hs (.file f0) ch).after (recordPos (.file f0)) mg := by
+      intro mg hmg m t hs ch
       obtain ⟨f', hf', hs'⟩ := request_after_file cfg m t hs f0 ch
-      exact Or.inr ⟨rfl, f0, f', rfl, hsk, htl, hf', hs', Or.inr rfl⟩
-    refine ⟨.int f0.pos, ?_, hinv0, hafter, hafter, fun hst => absurd hst (by simp [Stable])⟩
-    have hfe := sameFile_eq hsame
-    rcases hpos with ⟨rfl, hp⟩ | rfl
+      exact Or.inr ⟨f0, f', rfl, htl, hf', hs', Or.inr ⟨rfl, hmg⟩⟩
+    have hstab : Stable (.file f0) → recordPos (.file f0) = .none := fun hst => absurd hst (by simp [Stable])
+    have hrest := And.intro hinv0 (And.intro (hafter _ (Or.inr rfl)) (And.intro (hafter _ (Or.inl rfl)) hstab))
+    rcases hpos with ⟨rfl, hp, rfl⟩ | ⟨rfl, hm⟩
     · have : f = f0 := by rw [← hfe, ← hp]
       subst this
-      simp [setFilePosition, htl]
-    · have hsk' : f.seek = .ok := by rw [hsame.2.1, hsk]
-      simp only [setFilePosition, rewindBody, hsk', Except.map]
-      rw [← hsk', hfe]
+      exact ⟨by simp [managerPos], Or.inr ⟨by simp [setFilePosition], hrest⟩⟩
+    · refine ⟨?_, ?_⟩
+      · unfold managerPos
+        rcases hm with hm | hm
+        · simp only [hm]
+        · simp [hm]
+      · have hsk' : f.seek = f0.seek := hsame.2.1
+        cases htl' : f0.tell with
+        | absent => exact absurd htl' htl
+        | raises =>
+          refine Or.inl ⟨by simp [setFilePosition, recordPos, htl', rewindBody, Except.map], ?_⟩
+          rintro (hst | ⟨g, hg, _, hgt⟩)
+          · exact absurd hst (by simp [Stable])
+          · cases hg; rw [htl'] at hgt; exact absurd hgt (by decide)
+        | ok =>
+          cases hsk : f0.seek with
+          | ok =>
+            refine Or.inr ⟨?_, hrest⟩
+            rw [hsk] at hsk'
+            simp only [setFilePosition, recordPos, htl', rewindBody, hsk', Except.map]
+            rw [← hsk', hfe]
+          | raises =>
+            rw [hsk] at hsk'
+            refine Or.inl ⟨by simp [setFilePosition, recordPos, htl', rewindBody, hsk', Except.map], ?_⟩
+            rintro (hst | ⟨g, hg, hgs, _⟩)
+            · exact absurd hst (by simp [Stable])
+            · cases hg; rw [hsk] at hgs; exact absurd hgs (by decide)
+          | absent =>
+            rw [hsk] at hsk'
+            refine Or.inl ⟨by simp [setFilePosition, recordPos, htl', rewindBody, hsk', Except.map], ?_⟩
+            rintro (hst | ⟨g, hg, hgs, _⟩)
+            · exact absurd hst (by simp [Stable])
+            · cases hg; rw [hsk] at hgs; exact absurd hgs (by decide)
 
-theorem cons_wire {cfg : Cfg} {target : Str} {chunked : Bool} {W : Bytes} (a : Attempt) (h : HResult)
+theorem cons_wire {cfg : Cfg} {target : Str} {chunked : Bool} {bad : Prop} {W : Bytes} (a : Attempt) (h : HResult)
     (ha : a.after303 = false → a.wire = W)
-    (H : (∀ x ∈ h.attempts, x.after303 = false → x.wire = W) ∧ ResultOk cfg target chunked h) :
+    (H : (∀ x ∈ h.attempts, x.after303 = false → x.wire = W) ∧ ResultOk cfg target chunked bad h) :
     (∀ x ∈ (⟨a :: h.attempts, h.result⟩ : HResult).attempts, x.after303 = false → x.wire = W) ∧
-      ResultOk cfg target chunked ⟨a :: h.attempts, h.result⟩ := by
+      ResultOk cfg target chunked bad ⟨a :: h.attempts, h.result⟩ := by
   refine ⟨?_, H.2⟩
   intro x hx
   simp only [List.mem_cons] at hx
@@ -1130,48 +1190,47 @@ theorem cons_wire {cfg : Cfg} {target : Str} {chunked : Bool} {W : Bytes} (a : A
   · exact H.1 x hx
 
 theorem sendHistory_inv (lvl : Level) (cfg : Cfg) (target : Str) (chunked : Bool) (meth : Str)
-    (hs : List (Str × Str)) (b0 : Body) (hist : List Outcome) (h303 : ¬ Stable b0 → Outcome.redirect303 ∉ hist) :
-    ∀ (body : Body) (pos : BodyPos), Inv lvl b0 body pos →
-      (∀ a ∈ (sendHistory lvl cfg target chunked hist ⟨meth, hs, body, pos, false⟩).attempts,
+    (hs : List (Str × Str)) (b0 : Body) (hist : List Outcome) :
+    ∀ (body : Body) (pos : BodyPos) (mgr : Option BodyPos), Inv b0 body pos mgr →
+      (∀ a ∈ (sendHistory lvl cfg target chunked hist ⟨meth, hs, body, pos, false, mgr⟩).attempts,
           a.after303 = false → a.wire = (request cfg meth target hs b0 chunked).sent.written) ∧
-      ResultOk cfg target chunked (sendHistory lvl cfg target chunked hist ⟨meth, hs, body, pos, false⟩) := by
+      ResultOk cfg target chunked (¬ Good b0)
+        (sendHistory lvl cfg target chunked hist ⟨meth, hs, body, pos, false, mgr⟩) := by
   induction hist with
-  | nil => intro body pos _; simp [sendHistory, ResultOk]
+  | nil => intro body pos mgr _; simp [sendHistory, ResultOk]
   | cons o rest ih =>
-    have ih' := ih (fun hn hm => h303 hn (by simp [hm]))
-    intro body pos hinv
-    obtain ⟨pos1, hsf, hi0, hia, hin, hst⟩ := inv_step cfg hinv
-    simp only [sendHistory, hsf]
-    by_cases hc : o = .connErr
-    · simp only [hc, if_true]
-      exact ih' _ _ hi0
-    · simp only [hc, if_false]
-      cases herr : (request cfg meth target hs b0 chunked).sent.err with
-      | some e =>
-        simp only
-        refine ⟨by simp, Or.inr ⟨e, _, _, _, rfl, herr⟩⟩
-      | none =>
-        simp only
-        cases o with
-        | connErr => exact absurd rfl hc
-        | ok => simp [ResultOk]
-        | readErr => exact cons_wire _ _ (fun _ => rfl) (ih' _ _ (hia _ _ _ _))
-        | retryStatus => exact cons_wire _ _ (fun _ => rfl) (ih' _ _ (hia _ _ _ _))
-        | redirectKeep => exact cons_wire _ _ (fun _ => rfl) (ih' _ _ (hin _ _ _ _))
-        | redirect303 =>
-          have hstable : Stable b0 := by
-            by_cases hS : Stable b0
-            · exact hS
-            · exact absurd (by simp) (h303 hS)
-          have hp1 := hst hstable
-          subst hp1
-          have := sendHistory_after303 lvl cfg target chunked rest
-            { meth := lit "GET", headers := pmc hs, body := .none, after303 := true, pos := nextPos lvl .none }
-            rfl rfl (nextPos_none lvl)
-          refine cons_wire _ _ (fun _ => rfl) ⟨?_, this.2⟩
-          intro x hx hx3
-          rw [this.1 x hx] at hx3
-          exact absurd hx3 (by simp)
+    intro body pos mgr hinv
+    obtain ⟨hmp, hstep⟩ := inv_step cfg hinv meth hs false
+    rcases hstep with ⟨hsf, hbad⟩ | ⟨hsf, hi0, hia, hin, hst⟩
+    · simp only [sendHistory, hsf]
+      exact ⟨by simp, Or.inr (Or.inl ⟨hbad, rfl⟩)⟩
+    · simp only [sendHistory, hsf, hmp]
+      by_cases hc : o = .connErr
+      · simp only [hc, if_true]
+        exact ih _ _ _ hi0
+      · simp only [hc, if_false]
+        cases herr : (request cfg meth target hs b0 chunked).sent.err with
+        | some e =>
+          simp only
+          refine ⟨by simp, Or.inr (Or.inr ⟨e, _, _, _, rfl, herr⟩)⟩
+        | none =>
+          simp only
+          cases o with
+          | connErr => exact absurd rfl hc
+          | ok => simp [ResultOk]
+          | readErr => exact cons_wire _ _ (fun _ => rfl) (ih _ _ _ (hia _ _ _ _))
+          | retryStatus => exact cons_wire _ _ (fun _ => rfl) (ih _ _ _ (hia _ _ _ _))
+          | redirectKeep =>
+            rw [nextPos_self]
+            exact cons_wire _ _ (fun _ => rfl) (ih _ _ _ (hin _ _ _ _))
+          | redirect303 =>
+            have := sendHistory_after303 lvl cfg target chunked (¬ Good b0) rest
+              { meth := lit "GET", headers := pmc hs, body := .none, after303 := true, pos := .none, mgr := none }
+              rfl rfl rfl (Or.inl rfl)
+            refine cons_wire _ _ (fun _ => rfl) ⟨?_, this.2⟩
+            intro x hx hx3
+            rw [this.1 x hx] at hx3
+            exact absurd hx3 (by simp)
 
 
 /-! ## `str(n)` round trip -/
@@ -1322,16 +1381,27 @@ theorem chunksPayload_bytes_blocks (bl : List Bytes) :
 
 /-! ## bodies → chunks → wire → payload -/
 
-/-- a chunk whose `len()` agrees with its byte length (everything except buffers with wide items) -/
+/-- object invariant of a buffer chunk: a positive item size and a whole number of items
+(`nbytes = len * itemsize`), so that `not chunk` (no items) is the same as "no bytes".  Items may be
+wider than a byte.  Chunks of the other kinds satisfy it trivially. -/
 def wellSized : Chunk → Prop
-  | .buf _ k => k = 1
+  | .buf b k => 0 < k ∧ b.length % k = 0
   | _ => True
 
-/-- bodies all of whose pieces are well-sized -/
+/-- bodies all of whose buffer pieces satisfy the buffer invariant -/
 def WellSizedBody : Body → Prop
-  | .buffer _ k => k = 1
+  | .buffer b k => 0 < k ∧ b.length % k = 0
   | .iter cs _ => ∀ c ∈ cs, wellSized c
   | _ => True
+
+theorem buf_items_zero {b : Bytes} {k : Nat} (h : 0 < k ∧ b.length % k = 0) : b.length / k = 0 ↔ b = [] := by
+  constructor
+  · intro h0
+    have := Nat.div_add_mod b.length k
+    rw [h0, h.2] at this
+    simp at this
+    exact List.eq_nil_of_length_eq_zero this.symm
+  · rintro rfl; simp
 
 theorem bodyToChunks_spec {body : Body} {m : Str} {bs : Nat} {cc : ChunksCL} (hbs : 0 < bs)
     (hw : WellSizedBody body) (h : bodyToChunks body m bs = .ok cc) :
@@ -1368,9 +1438,9 @@ theorem bodyToChunks_spec {body : Body} {m : Str} {bs : Nat} {cc : ChunksCL} (hb
         intro n pay hn hp
         simp [payload, chunkBytes, hs] at hp; simp at hn; subst hp; exact hn
   | buffer b k =>
-    simp only [WellSizedBody] at hw; subst hw
+    simp only [WellSizedBody] at hw
     simp [bodyToChunks] at h; subst h
-    refine ⟨⟨by simp [chunksPayload, chunkBytes, payload], by simp [wellSized]⟩, ?_⟩
+    refine ⟨⟨by simp [chunksPayload, chunkBytes, payload], by simpa [wellSized] using hw⟩, ?_⟩
     intro n pay hn hp
     simp [payload] at hp; simp at hn; subst hp; exact hn
   | file f =>
@@ -1416,8 +1486,9 @@ theorem sendChunks_spec (cs : List Chunk) (hw : ∀ c ∈ cs, wellSized c) (chun
         | bytes b => simp [Chunk.len] at hlen; simp [chunkBytes, hlen]
         | str s => simp [Chunk.len] at hlen; simp [chunkBytes, hlen, utf8SP]
         | buf b k =>
-          simp only [wellSized] at hwc; subst hwc
-          simp [Chunk.len] at hlen; simp [chunkBytes, hlen]
+          simp only [wellSized] at hwc
+          simp only [Chunk.len] at hlen
+          simp [chunkBytes, (buf_items_zero hwc).mp hlen]
       simp [chunksPayload, hb, h2]
     · rename_i hlen
       split at hok
@@ -1449,17 +1520,17 @@ theorem sendChunks_spec (cs : List Chunk) (hw : ∀ c ∈ cs, wellSized c) (chun
                 repeat' split at this
                 all_goals simp at this
           | buf b k =>
-            simp only [wellSized] at hwc; subst hwc
+            simp only [wellSized] at hwc
             simp [Chunk.data] at hd; subst hd
-            simp [Chunk.len] at hlen
-            exact ⟨rfl, by simp [Chunk.sizeLine, Chunk.len], hlen⟩
+            simp only [Chunk.len] at hlen
+            exact ⟨rfl, rfl, fun hb => hlen ((buf_items_zero hwc).mpr hb)⟩
         obtain ⟨hc1, hc2, hc3⟩ := hcb
         refine ⟨d :: ds, ?_, ?_, ?_⟩
         · intro x hx; simp at hx; rcases hx with rfl | hx
           · exact hc3
           · exact h1 x hx
         · simp [chunksPayload, hc1, h2]
-        · simp only [hlen, if_false, hd, h3, hc2]
+        · simp only [hlen, if_false, h3, hc2]
           cases chunked <;> simp [frameData]
 
 theorem framing_cases (keys : List Str) (ch : Bool) (chunks : Option (List Chunk)) (cl : Option Nat)
